@@ -50,6 +50,7 @@ pub struct Tweaks {
     pub num_draws: u64,
     pub maxdepth: Option<u64>,
     pub mindepth: Option<u64>,
+    pub extra_doublings: Option<u64>,
     pub max_energy_error: Option<f64>,
     pub target_integration_time: Option<f64>,
     pub kinetic: Option<KineticEnergyKind>,
@@ -83,6 +84,7 @@ impl Default for Tweaks {
             num_draws: 5,
             maxdepth: None,
             mindepth: None,
+            extra_doublings: None,
             max_energy_error: None,
             target_integration_time: None,
             kinetic: None,
@@ -146,6 +148,9 @@ macro_rules! apply_nuts_common {
         $s.num_draws = $t.num_draws;
         if let Some(v) = $t.maxdepth {
             $s.maxdepth = v;
+        }
+        if let Some(v) = $t.extra_doublings {
+            $s.extra_doublings = v;
         }
         if let Some(v) = $t.mindepth {
             $s.mindepth = v;
